@@ -257,7 +257,8 @@ theorem reachable_soup_guarantees (n : Nat) (byz : Nat → Bool) (sys : Sys) (hr
     crash-free event — proposal or block part with arbitrary content (not even required to be signed),
     timeout, BlockManager callback, or delivery of a vote that is in the soup (= has been signed by
     somebody before; signatures are unforgeable) — where everything it signs during the event is added
-    to the soup.  Loss, delay, duplication, reordering are all such interleavings.  Then any two
+    to the soup.  Also (c): a correct validator is handed any block with a commit vote list through the
+    block-sync callback (`syncBlock`), the commit votes being votes of the soup.  Loss, delay, duplication, reordering are all such interleavings.  Then any two
     Finalize effects of correct validators (the same or different ones) for the same height name the
     same block.  No bound on n, heights, rounds, or the length of the execution. -/
 theorem agreement_nocrash (n : Nat) (byz : Nat → Bool) (hb : fewByz n byz) (sys : Sys)
@@ -287,6 +288,137 @@ theorem exScript_reach : Reach 4 (fun i => i == 3) ((sys0 4).run exScript) :=
 example : fewByz 4 (fun i => i == 3) ∧
     (1, 1201) ∈ finalizedOf (((sys0 4).run exScript).st 0).eff ∧
     (1, 1201) ∈ finalizedOf (((sys0 4).run exScript).st 1).eff := by
+  decide +kernel
+
+/-! ### block sync (ReceiveBlockResult → processBlock) as an event
+
+    `EventS` = `Event` + `sync h r b signers` (Proofs/C01Sync): the engine is handed block `b` of height
+    `h` with a commit vote list (precommits of round `r` by `signers`).  `runS` = histories that may
+    contain sync steps.  `Reach` / `ReachC` have `sync` steps whose commit votes are in the soup, so
+    `agreement_nocrash` and `agreement_partial` above cover executions with block sync. -/
+
+/-- crash-free history of `EventS` started fresh: all three running invariants, with the delivered
+    votes = votes of `vote` events + votes inside sync commit vote lists -/
+theorem runS_invariants (n me : Nat) (evs : List EventS) (hn : ∀ e, e ∈ evs → e.noCrash) :
+    A3 (deliveredS evs) [] (runS (start { n := n, me := me }) evs) :=
+  runS_a3 _ evs hn (fun _ he _ hm => mem_deliveredS he hm) (a3_start_fresh n me)
+
+theorem runS_n (n me : Nat) (evs : List EventS) : (runS (start { n := n, me := me }) evs).n = n :=
+  (runS_inv _ evs (inv_start n me)).hn
+
+/-- **Finalize needs a commit quorum, block sync included.**  Every `finalize h b` effect of a crash-free
+    history that may contain sync steps — in particular a block finalized THROUGH sync — was emitted
+    with more than 2/3 of the validator indices having a precommit (i, h, r, b) for ONE round r FOR THAT
+    BLOCK among the votes delivered to the machine (by `vote` events or inside sync commit vote lists)
+    or signed by itself.  (Seeded change C01-5 breaks exactly this: `c015_finalizes_without_quorum`.) -/
+theorem vstepS_finalize_has_commit_quorum (n me : Nat) (evs : List EventS) (hn : ∀ e, e ∈ evs → e.noCrash)
+    (h : Nat) (b : Blk) (hf : (h, b) ∈ finalizedOf (runS (start { n := n, me := me }) evs).eff) :
+    ∃ r, quorumKnown (deliveredS evs) n (sentOf (runS (start { n := n, me := me }) evs).eff) h
+      .precommit r (some b) := by
+  have := (runS_invariants n me evs hn).h3.fin h b hf
+  rw [runS_n] at this
+  exact this
+
+/-- the same prefix-wise: the quorum was known BEFORE the Finalize effect -/
+theorem vstepS_finalize_rule_prefixwise (n me : Nat) (evs : List EventS) (hn : ∀ e, e ∈ evs → e.noCrash)
+    (pre post : List Eff) (h : Nat) (b : Blk)
+    (hd : (runS (start { n := n, me := me }) evs).eff = pre ++ Eff.finalize h b :: post) :
+    ∃ r, quorumKnown (deliveredS evs) n (sentOf pre) h .precommit r (some b) := by
+  have := (runS_invariants n me evs hn).h3.tr.fin pre h b post hd
+  rw [runS_n] at this
+  exact this
+
+/-- G0 / G1 with sync steps (sync signs nothing): strictly increasing (height, round, step) keys — with
+    crash and restart anywhere as well (C02's invariant is kept by sync) -/
+theorem vstepS_G0 (n me : Nat) (evs : List EventS) :
+    (sentOf (runS { n := n, me := me } evs).eff).Pairwise msgLt :=
+  (runS_inv _ evs (inv_init me n)).inc
+
+theorem vstepS_G1 (n me : Nat) (evs : List EventS) (v w : VoteRec)
+    (hv : Msg.vote v ∈ sentOf (runS { n := n, me := me } evs).eff)
+    (hw : Msg.vote w ∈ sentOf (runS { n := n, me := me } evs).eff)
+    (hh : v.height = w.height) (hr : v.round = w.round) (ht : v.typ = w.typ) : v = w :=
+  pairwise_msgLt_unique (vstepS_G0 n me evs) hv hw (by unfold voteKey; rw [hh, hr, ht])
+
+/-- G2 with sync steps, exact timing -/
+theorem vstepS_G2_before (n me : Nat) (evs : List EventS) (hn : ∀ e, e ∈ evs → e.noCrash)
+    (pre post : List Msg) (v : VoteRec) (b : Blk)
+    (hs : sentOf (runS (start { n := n, me := me }) evs).eff = pre ++ Msg.vote v :: post)
+    (ht : v.typ = .precommit) (hb : v.val = some b) :
+    quorumKnown (deliveredS evs) n pre v.height .prevote v.round (some b) := by
+  have := (runS_invariants n me evs hn).h3.g2 pre v post b hs ht hb
+  rw [runS_n] at this
+  exact this
+
+/-- G3 (lock rule) with sync steps, exact timing -/
+theorem vstepS_G3 (n me : Nat) (evs : List EventS) (hn : ∀ e, e ∈ evs → e.noCrash)
+    (pre post : List Msg) (w v : VoteRec) (b : Blk)
+    (hs : sentOf (runS (start { n := n, me := me }) evs).eff = pre ++ Msg.vote w :: post)
+    (hwt : w.typ = .prevote) (hv : Msg.vote v ∈ pre) (hvt : v.typ = .precommit) (hvb : v.val = some b)
+    (hh : v.height = w.height) (hr : v.round < w.round) (hne : w.val ≠ some b) :
+    ∃ r'' y, v.round < r'' ∧ r'' ≤ w.round ∧ y ≠ some b ∧
+      quorumKnown (deliveredS evs) n pre w.height .prevote r'' y := by
+  have := (runS_invariants n me evs hn).h3.g3 pre w post hs hwt v b hv hvt hvb hh hr hne
+  rw [runS_n] at this
+  exact this
+
+/-! non-vacuity: validator 0 of 4 validated the round-0 proposal 9, nobody else did; it is then handed
+    block 10 with the precommits of validators 1, 2, 3 of round 1 through block sync: it drops the
+    candidate 9 (other part-set id), imports 10 and finalizes 10 -/
+def syncEvents : List EventS := [
+  .ev (.proposal 1 1 0 9 (-1)), .ev (.blockPart 1 9), .ev .async,
+  .sync 1 1 10 [1, 2, 3], .ev .async]
+
+example : (∀ e, e ∈ syncEvents → e.noCrash) ∧
+    finalizedOf (runS (start { n := 4, me := 0 }) syncEvents).eff = [(1, 10)] := by
+  refine ⟨?_, by decide +kernel⟩
+  intro e he
+  simp only [syncEvents, List.mem_cons, List.not_mem_nil, or_false] at he
+  rcases he with rfl | rfl | rfl | rfl | rfl <;> simp [EventS.noCrash, Event.noCrash]
+
+/-- seeded change C01-5 (blockPartSet.SetByPartSetAndBlock compares the part-set id AFTER overwriting
+    it, so a validated candidate is never dropped) in model terms: the stale candidate stays in `cur`,
+    and enterCommit's SetByPartSetID is a no-op because the part set was already replaced -/
+def syncBlockC015 (s : S) (h r : Nat) (b : Blk) (signers : List Nat) : S :=
+  if s.height < h then s
+  else if s.height > h || (s.step == stCommit && s.cur.isComplete) then s
+  else
+    let (s, ok) := syncAddVotes s (signers.map (fun sg => ⟨sg, h, .precommit, r, some b⟩))
+    if !ok then s
+    else match (votesFor s.hvs r .precommit).decision s.n with
+      | some (some b') =>
+        if b' != b then s
+        else
+          let s := if s.cur.hasValidated then s else { s with cur := .full b false }
+          if s.step < stCommit then
+            let s := s.resetForNewStep stCommit
+            let s := { s with commitRound := (r : Int) }
+            let s := (s.emit (.write .commit (.voteList (voteListOf s r .precommit)))).emit (.sync .commit)
+            commitAndEnterNewHeight fuel0 s
+          else commitAndEnterNewHeight fuel0 s
+      | _ => s
+
+/-- **C01-5 (witness).**  Same history: validator 0 holds the validated candidate 9; the sync delivers
+    block 10 with +2/3 precommits (round 1) of validators 1, 2, 3.  The C01-5 variant finalizes 9 —
+    a block for which NO precommit at all is among the delivered or own votes, let alone a quorum — so
+    `vstepS_finalize_has_commit_quorum` fails for it; the transcribed `syncBlock` finalizes nothing at
+    that point and 10 after the import. -/
+theorem c015_finalizes_without_quorum :
+    let s0 := run (start { n := 4, me := 0 }) [.proposal 1 1 0 9 (-1), .blockPart 1 9, .async]
+    finalizedOf (syncBlockC015 s0 1 1 10 [1, 2, 3]).eff = [(1, 9)] ∧
+    (∀ v, v ∈ syncVotes 1 1 10 [1, 2, 3] ++ votesOf (sentOf (syncBlockC015 s0 1 1 10 [1, 2, 3]).eff) →
+      ¬ (v.typ = .precommit ∧ v.val = some 9)) ∧
+    finalizedOf (syncBlock s0 1 1 10 [1, 2, 3]).eff = [] ∧
+    finalizedOf (async (syncBlock s0 1 1 10 [1, 2, 3])).eff = [(1, 10)] := by
+  decide +kernel
+
+/-! non-vacuity of the `sync` step of L-sys: after `exScript` validator 2 (which has not seen the
+    precommits) is handed block 1201 with the commit votes of 0, 1, 2 and finalizes it -/
+theorem exScriptSync_reach :
+    Reach 4 (fun i => i == 3) ((sys0 4).run (exScript ++ [.sync 2 1 0 1201 [0, 1, 2]])) :=
+  reach_run 4 (fun i => i == 3) (sys0 4) _ Reach.init (by decide +kernel)
+
+example : (1, 1201) ∈ finalizedOf (((sys0 4).run (exScript ++ [.sync 2 1 0 1201 [0, 1, 2]])).st 2).eff := by
   decide +kernel
 
 /-! ### crash and restart
